@@ -16,15 +16,21 @@
      connected and not yet cut off, as guarded by serviceReceives/serviceTxes), then ONE
      service call of the chosen driver.
    Time is in integer ticks (the harness uses multiples of 1/8 s, exact in binary64).
-   Not modelled: TLS handshake (ClientTls), connect_ex raising, Patron's request/response
+   Client.serviceConnect is modelled WITH the cut-off branch of fixes/C27-client-cutoff-reconnect
+   (a reconnectable client that lost its connection reopens after the timeout).
+   connect_ex / getsockname raising socket.error is modelled (result class KRaise: the attempt
+   is counted, the exception propagates out of the service call, so the timer check of
+   serviceConnect is skipped).
+   Not modelled: TLS handshake (ClientTls), Patron's request/response
    servicing and the server-sent-event retry duration (respondent.evented = False).      *)
 From Coq Require Import List ZArith Bool.
 Import ListNotations.
 Open Scope Z_scope.
 
 (* connect_ex results *)
-Inductive cres := C0 | CISCONN | CINPROGRESS | CALREADY | CREFUSED | CINVAL | COTHER.
-Inductive ccls := KConn | KReopen | KWait.
+(* CRAISE: connect_ex raises socket.error; CNAMERR: connect_ex returns 0 but getsockname raises *)
+Inductive cres := C0 | CISCONN | CINPROGRESS | CALREADY | CREFUSED | CINVAL | COTHER | CRAISE | CNAMERR.
+Inductive ccls := KConn | KReopen | KWait | KRaise.
 (* accept():  result in [0, EISCONN] -> connected;  in (EINVAL, ECONNREFUSED) -> reopen;
    anything else -> try again later *)
 Definition classify (r : cres) : ccls :=
@@ -32,6 +38,7 @@ Definition classify (r : cres) : ccls :=
   | C0 | CISCONN => KConn
   | CREFUSED | CINVAL => KReopen
   | CINPROGRESS | CALREADY | COTHER => KWait
+  | CRAISE | CNAMERR => KRaise
   end.
 
 Inductive event :=
@@ -102,7 +109,16 @@ Definition accept (c : client) : client :=
     | KConn => set_accepted c2 sid
     | KReopen => reopen c2
     | KWait => c2
+    | KRaise => c2
     end
+  end.
+
+(* does this accept() end with an exception propagating to the caller? *)
+Definition accept_raises (c : client) : bool :=
+  let c1 := match cs c with None => reopen c | Some _ => c end in
+  match cs c1 with
+  | None => false
+  | Some sid => match classify (orc sid (att c1)) with KRaise => true | _ => false end
   end.
 
 (* StoreTimer *)
@@ -113,15 +129,24 @@ Definition restart (c : client) : client :=
 
 Definition timed_out (c : client) : bool := (0 <? timeout c) && expired c.
 
-(* Client.serviceConnect *)
-Definition serviceConnect (c : client) : client :=
+(* Client.serviceConnect from "if not self.connected:" on *)
+Definition sc_core (c : client) : client :=
   if accepted c then c
   else let c1 := accept c in
-       if negb (accepted c1) && reconn c1 && timed_out c1 then restart (reopen c1) else c1.
+       if accept_raises c then c1
+       else if negb (accepted c1) && reconn c1 && timed_out c1 then restart (reopen c1) else c1.
+
+(* "if self.cutoff and self.reconnectable: if self.timeout > 0.0 and self.timer.expired:
+       self.reopen(); self.timer.restart()"   (the same statement opens Patron.serviceAll) *)
+Definition cutoff_branch (c : client) : client :=
+  if cutoff c && reconn c && timed_out c then restart (reopen c) else c.
+
+(* Client.serviceConnect *)
+Definition serviceConnect (c : client) : client := sc_core (cutoff_branch c).
 
 (* Patron.serviceAll, connection part *)
 Definition patron_service (c : client) : client :=
-  let c1 := if cutoff c && reconn c && timed_out c then restart (reopen c) else c in
+  let c1 := cutoff_branch c in
   if accepted c1 then c1 else serviceConnect c1.
 
 Definition set_lha (c : client) : client :=
@@ -176,6 +201,9 @@ Fixpoint opens (l : list event) : nat :=
   | EvOpen _ :: l' => S (opens l')
   | _ :: l' => opens l'
   end.
+
+Definition no_raise (orc : nat -> nat -> cres) : Prop :=
+  forall sid k, classify (orc sid k) <> KRaise.
 
 (* "the server listens" for every socket created from number n0 on: the first [lag]
    connect_ex calls on it may still report in-progress (or already succeed), every later
